@@ -256,6 +256,36 @@ def builder_rules(ck):
             ck.ob("DEFUSE", f.path, "threshold-used-as-a-count", len(takes) >= 1 and not byidx,
                   "the first `threshold` entries are selected with take(threshold)" if takes and not byidx else
                   "the signer selects by key value (%s) instead of taking `threshold` many entries: an access structure with gaps in its indices is signed with too few keys" % [t["f"]["name"] for (_, t) in byidx], f.loc(byidx[0][0]) if byidx else f.loc())
+    # num_keys() is the number of signatures sign_transaction_hash() produces (the energy of a transaction is computed from it):
+    # per signer type, credentials are limited with take(..) in both or in neither, and the per-credential count is the
+    # credential's threshold iff the signer takes `threshold` of its keys, its number of keys iff the signer uses them all
+    cb_ = crate("rs", CB)
+    groups = {}
+    for pth in sorted(cb_.paths()):
+        m = re.match(r"^<(.*) as concordium_base::transactions::(ExactSizeTransactionSigner|TransactionSigner)>::(num_keys|sign_transaction_hash)((::\{closure#\d+\})*)$", pth)
+        if m and not re.search(r"^(&|std::(rc|sync)::)|^[A-Z]$", m.group(1)):
+            groups.setdefault(m.group(1), {}).setdefault(m.group(3), []).extend((Fn(b), bool(m.group(4))) for b in cb_.get_all(pth))
+    npair = 0
+    for ty, g in sorted(groups.items()):
+        if not ("num_keys" in g and "sign_transaction_hash" in g):
+            continue
+        npair += 1
+        s_outer = sum(len(f.calls(r"Iterator::take$")) for (f, cl) in g["sign_transaction_hash"] if not cl)
+        s_inner = sum(len(f.calls(r"Iterator::take$")) for (f, cl) in g["sign_transaction_hash"] if cl)
+        n_outer = sum(len(f.calls(r"Iterator::take$")) for (f, cl) in g["num_keys"] if not cl)
+        by_thr = by_len = 0
+        for (f, cl) in g["num_keys"]:
+            if cl:
+                o = f.origins(0, deep=True)
+                by_thr += ("field", "threshold") in o
+                by_len += has_call_origin(o, r"::len$")
+        okn = (s_outer > 0) == (n_outer > 0) and ((s_inner > 0 and by_thr >= 1 and by_len == 0) or (s_inner == 0 and by_len >= 1 and by_thr == 0))
+        f0 = [f for (f, cl) in g["num_keys"] if not cl][0]
+        ck.ob("SIB", f0.path, "declared-signature-count-is-what-the-signer-produces", okn,
+              "signer: take on credentials %d / on keys %d; count: take on credentials %d, per credential %s" % (s_outer, s_inner, n_outer, "threshold" if by_thr else "number of keys") if okn else
+              "the signer takes %s and %s, but num_keys counts %s per credential%s: the energy computed from it is not the documented function of the signatures actually made"
+              % ("`threshold` credentials" if s_outer else "all credentials", "`threshold` keys of each" if s_inner else "all keys of each", "the number of keys" if by_len else ("the threshold" if by_thr else "something else"), "" if (s_outer > 0) == (n_outer > 0) else ", over a different set of credentials"), f0.loc())
+    ck.floor("SIB", "signer types implementing both traits", npair, 2)
     # a prepared (v0) transaction is signed over the digest of the header and payload it is emitted with: sign() goes through
     # sign_transaction, which hashes exactly those two values, not through a digest cached at construction time (the fields
     # are public and may have been adjusted - e.g. the energy - before signing)
